@@ -179,9 +179,9 @@ def _ite_leaf(c, x, y):
 
 def ite(c, a, b):
     """leaf-wise if-then-else; a missing side (None) yields the other side"""
-    if a is None:
+    if a is None or type(a).__name__ == 'NoValue':
         return b
-    if b is None:
+    if b is None or type(b).__name__ == 'NoValue':
         return a
     if a is b:
         return a
